@@ -258,6 +258,9 @@ var payloads = []struct {
 	{"hex-odd", []byte("abc")}, {"0x", []byte("0x")}, {"space", []byte("  ")}, {"nul", []byte{0}},
 	{"bech32-junk", []byte("fx1qqqqqqqqqqqqqqqqqqqqqqqqqqqqqqqqqqqqqq")}, {"eth-lower", []byte("0x" + strings.Repeat("ab", 20))},
 	{"eth-zero", []byte("0x0000000000000000000000000000000000000000")},
+	// well-formed hex of boundary lengths (signatures are 65 bytes, hashes 32, addresses 20)
+	{"hex-1B", []byte("00")}, {"hex-2B", []byte("abcd")}, {"hex-20B", []byte(strings.Repeat("ab", 20))}, {"hex-32B", []byte(strings.Repeat("ab", 32))},
+	{"hex-64B", []byte(strings.Repeat("1b", 64))}, {"hex-65B", []byte(strings.Repeat("1b", 65))}, {"hex-66B", []byte(strings.Repeat("1b", 66))},
 }
 
 // mutations of a wire message, recursively into length-delimited fields that parse as messages
